@@ -36,6 +36,14 @@ def PyFloat.ge : PyFloat → PyFloat → Bool
 
 def PyFloat.isFinite : PyFloat → Bool | .fin _ => true | _ => false
 
+/-- `math.isfinite(x)` with the repair of finding F8: a Python int that cannot be converted to a float (`float(x)` raises
+OverflowError from `2**1024 - 2**970` on, where rounding to nearest reaches `2**1024`) is not a finite grid bound -/
+def PyVal.finiteAsFloat : PyVal → Bool
+  | .int i => decide (i.natAbs < 2 ^ 1024 - 2 ^ 970)
+  | .bool _ => true
+  | .float f => f.isFinite
+  | _ => false
+
 def PyVal.asInt : PyVal → Int
   | .int i => i | .bool b => if b then 1 else 0 | _ => 0
 
@@ -46,7 +54,7 @@ def validateContinuous (start stop nPoints : PyVal) (repaired : Bool := false) :
   let okStop := stop.isNumber
   let okN := nPoints.isInt && 1 ≤ nPoints.asInt
   let okOrder := !(okStart && okStop && start.toFloat.ge stop.toFloat)
-  let okFinite := !repaired || ((!okStart || start.toFloat.isFinite) && (!okStop || stop.toFloat.isFinite))
+  let okFinite := !repaired || ((!okStart || start.finiteAsFloat) && (!okStop || stop.finiteAsFloat))
   okStart && okStop && okN && okOrder && okFinite
 
 /-- `LogspaceGrid`: the continuous-grid validation plus (repair F3) a strictly positive start -/
